@@ -1445,11 +1445,12 @@ func ExistExpr(query *Query, current Map, expr *sqlparser.ExistsExpr, opts ...Ex
 		if !ok {
 			return false, INVALID_TYPE.Extend(fmt.Sprintf("failed to build `EXIST` expression. expected an object but found %T", item))
 		}
+		// (a column of the element hides a column of the outer row that has the same name)
 		extended := make(Map, len(item)+len(current))
-		for key, value := range item {
+		for key, value := range current {
 			extended[key] = value
 		}
-		for key, value := range current {
+		for key, value := range item {
 			extended[key] = value
 		}
 		from[i] = extended
